@@ -672,7 +672,7 @@ func c39Check(col *stat.Collector, rt stat.Fataler, plan c39Plan, run c39Run, tr
 				}
 			case "ctx":
 				if op.Generous && (gone < 0 || gone > g.EndUs) {
-					c.Fail(rt, "C39.waiter-starved", fmt.Sprintf("%s gave up with %q after %d ms although its TTL exceeds every loader latency on the key plus the liveness TTL of every crashed client: a lock was not released or a wake-up was missed", describe(g), g.Err, (g.EndUs-g.StartUs)/1000), plan)
+					c.Fail(rt, "C39.waiter-starved", fmt.Sprintf("%s gave up with %q after %d ms although its TTL exceeds every loader latency on the key plus the liveness TTL of every crashed or disconnected client: a lock was not released or a wake-up was missed", describe(g), g.Err, (g.EndUs-g.StartUs)/1000), plan)
 				}
 				cls["ctx-timeout"] = true
 			default:
@@ -865,14 +865,18 @@ func genC39Plan(rt *rapid.T) c39Plan {
 			e.Key = rapid.SampledFrom(keys).Draw(rt, "evKey")
 		default:
 			e.Client = rapid.IntRange(0, nc-1).Draw(rt, "evClient")
-			if e.Kind == "crash" {
+			if e.Kind == "crash" || e.Kind == "kill" {
+				// a disconnect can also strand a lock: the SET NX may have been executed with its reply lost, and the
+				// DEL of the old client id that the client sends on disconnect fails when no connection is left, so
+				// the lock stays until the old id key expires (nobody refreshes it any more)
 				crashes++
 			}
 		}
 		p.Events = append(p.Events, e)
 	}
 	// a generous TTL exceeds: every loader latency on the key (loads on a key are sequential at worst), the
-	// liveness TTL of every crashed client (its lock is released once its marker key has expired), and slack
+	// liveness TTL of every crashed or disconnected client (its lock is released once its marker key has
+	// expired), and slack
 	for ci := range p.Clients {
 		for gi := range p.Clients[ci].Callers {
 			for oi := range p.Clients[ci].Callers[gi] {
